@@ -115,6 +115,12 @@ def run(ctx):
         if not misc.get("LimitPlusOneRejected", False) or not misc.get("LimitAccepted", False):
             ctx.violation("readProtoFrame:limit-boundary", "frame of exactly maxFrameSize must be accepted and maxFrameSize+1 rejected: %s" % misc,
                           {"max_frame_size": 4096})
+        if misc.get("MetadataHostileCountAllocBytes", 0) > 65536:
+            ctx.violation("Metadata.UnmarshalBinary:map-presized-from-wire-count",
+                          "a 12-byte metadata block announcing 65535 headers made Metadata.UnmarshalBinary allocate %s bytes before rejecting it (an allocation far beyond the input, and beyond any frame limit configured below it)" % misc.get("MetadataHostileCountAllocBytes"),
+                          {"function": "internal/net.(*Metadata).UnmarshalBinary", "input_hex": "ffff" + "00" * 10,
+                           "allocated_bytes": misc.get("MetadataHostileCountAllocBytes"), "bound_checked": 65536,
+                           "repair": "fixes/C23-metadata-count-presize.diff"})
         if not misc.get("MetadataHostileCountRejected", False):
             ctx.violation("Metadata.UnmarshalBinary:hostile-count-accepted", "count=65535 in a 12-byte block was accepted", {"input_hex": "ffff" + "00" * 10})
 
@@ -179,7 +185,7 @@ def run(ctx):
         if not (mh.get("Class") == 0 and mh.get("N") == 0 and mh.get("Count") == 0):
             ctx.tie_broken("limit replay: 65536 headers (theorem C23_limit_header_count_silently_truncated says they decode to none)", mh)
         ctx.notes.append("outside the property's limits the encoder truncates lengths silently (no limit is checked): a 65536-byte header key round-trips to %s, 65536 headers to %d headers" % (bk.get("Hdrs"), mh.get("N", -1)))
-        ctx.notes.append("Metadata.UnmarshalBinary pre-sizes its map from the wire count: a 12-byte block with count=65535 allocated %s bytes before being rejected" % misc.get("MetadataHostileCountAllocBytes"))
+        ctx.notes.append("Metadata.UnmarshalBinary on a 12-byte block with count=65535 allocated %s bytes before rejecting it (bound asserted: 64 KiB)" % misc.get("MetadataHostileCountAllocBytes"))
 
     # ------------------------------------------------------------ the theorems
     if not ctx.coq_property():
